@@ -140,6 +140,7 @@ func init() {
 			c.Sets[0].Name = []string{"db.prod", "a23456789b23456789c23456789d23456789e23456789f23456789g2345678"}[r.Intn(2)]
 		}
 		c.Weights["listerfault"] = 4
+		c.Weights["claimtmpl"] = 3
 		c.Weights["pvcterm"] = 3
 		c.Weights["scalein"] = 8
 		c.Weights["scaleout"] = 8
@@ -178,6 +179,17 @@ func init() {
 
 	// revision histories: flips, rollbacks, non-template edits, limits
 	profiles["history"] = &Profile{Name: "history", Tweak: func(r *PRNG, c *Config) {
+		if r.Chance(0.3) {
+			if len(c.Sets) == 1 {
+				sc := c.Sets[0]
+				sc.Name = "db"
+				sc.Labels = map[string]string{"app": "db"}
+				c.Sets = append(c.Sets, sc)
+			}
+			if c.Workers < 2 {
+				c.Workers = 2
+			}
+		}
 		for i := range c.Sets {
 			sc := &c.Sets[i]
 			sc.HistoryLimit = int32(r.Intn(4))
@@ -197,6 +209,20 @@ func init() {
 		c.Weights["mkrev"] = 3
 		c.Weights["histlimit"] = 3
 		c.Weights["kube"] = 60
+	}, Tail: func(r *PRNG, s *Sim) []Step {
+		// two workers trimming the histories of two sets at once: the first is parked
+		// between two of its revision deletes while the second runs a whole pass
+		if len(s.Cfg.Sets) < 2 || s.Cfg.Workers < 2 || !r.Chance(0.6) {
+			return nil
+		}
+		var out []Step
+		// three template flips per set (unused revisions), then the limits drop
+		for k := 0; k < 3; k++ {
+			out = append(out, Step{K: "template", A: 0, B: (k + 1) % 4}, Step{K: "template", A: 1, B: (k + 2) % 4}, Step{K: "settle"})
+		}
+		return append(out, Step{K: "histlimit", A: 0, B: 0}, Step{K: "histlimit", A: 1, B: 1}, Step{K: "deliverall"},
+			Step{K: "worker"}, Step{K: "worker"}, Step{K: "relto", A: 0, B: 5}, Step{K: "release", A: 0},
+			Step{K: "relto", A: 1, B: 9}, Step{K: "finish"})
 	}}
 
 	// ownership: overlapping selectors, foreign / orphan / stale-owner objects, name shapes
@@ -410,6 +436,10 @@ func init() {
 				out = append(out, Step{K: "mkpod", A: 0, B: r.Intn(4), C: []int{ownThis, ownNone}[r.Intn(2)] | 3<<2, D: c.Sets[0].Template, S: nm})
 			}
 		}
+		// the largest ordinal an int32 holds, on a pod that is not (yet) healthy
+		if r.Chance(0.3) {
+			out = append(out, Step{K: "mkpod", A: r.Intn(2), B: 0, C: []int{ownThis, ownNone}[r.Intn(2)] | r.Intn(3)<<2, D: c.Sets[0].Template, S: sprintf("%s-2147483647", c.Sets[r.Intn(2)].Name)})
+		}
 		// revisions and pods carrying a non-controller owner reference whose optional
 		// "controller" field is absent
 		for j := 0; j < r.Intn(3); j++ {
@@ -419,6 +449,15 @@ func init() {
 			out = append(out, Step{K: "mkpod", A: 0, B: r.Intn(4), C: ownNone | 3<<2 | 1<<11, D: c.Sets[0].Template})
 		}
 		return append(out, boot)
+	}, Tail: func(r *PRNG, s *Sim) []Step {
+		// the well-formed neighbour is deleted and created again while a reconcile of
+		// it is parked before its status write: the delete has reached the cache, the
+		// add has not (the write conflicts and the re-read finds nothing)
+		if !r.Chance(0.4) {
+			return nil
+		}
+		return []Step{{K: "settle"}, {K: "scaleout", A: 1, B: 0}, {K: "deliverall"}, {K: "worker"}, {K: "relto", A: 0, B: 2},
+			{K: "delset", A: 1, B: 0}, {K: "deliver", A: 1}, {K: "deliver", A: 1}, {K: "mkset", A: 1}, {K: "finish"}}
 	}}
 
 	// migration from a built-in StatefulSet (C18)
